@@ -8,6 +8,8 @@ What is decided here, and by what:
                both byte orders and every block size, get_bit, shifts, mixed int/Integer and in-place operators,
                the documented exceptions (negative exponent, zero / negative modulus, no inverse, negative value
                to bytes, quadratic non-residue), modular square roots for small prime moduli
+    custom_glue : Math/_IntegerCustom.py pow() / _mult_modulo_bytes over the CONTRACT of src/modexp.c (operands of one
+               common length, odd modulus; the C itself: modexp_c below) for operands of different byte lengths
     mr_prime : Miller-Rabin never declares a prime composite, for EVERY random tape (all bases), primes below 2^8
   LLSYM on the real C:
     conv_c   : endianess.h bytes_to_words / words_to_bytes (as compiled into mont.c) for every length 1..17 and
@@ -278,6 +280,73 @@ def _int_algo(env, sh, Integer, op, w):
         raise KeyError(op)
 
 
+def run_custom_glue(env, sh):
+    """Math/_IntegerCustom.py on top of the contract of src/modexp.c: pow() and the constant-time modular product hand
+    the C code three operands of one common length (longest of base, exponent and modulus), fall back to Python for
+    even moduli, raise the documented exceptions, and the result is exact -- operands of different byte lengths"""
+    import importlib
+    import sys
+    wb, we, wm = sh['wb'], sh['we'], sh['wm']
+    b, e = env.int('b', wb), env.int('e', we, signed=sh.get('esigned', False))
+    # symbolic modulus only at toy width (the power chain over a symbolic modulus is beyond z3 above ~5 bits); the byte-length
+    # combinations that drive the glue use concrete moduli of 1, 2 and 9 bytes
+    m = sh['m'] if 'm' in sh else env.int('m', wm, signed=sh.get('msigned', False))
+    undo = _shims(env)
+    if env.sym:
+        from vlib.pysym import natives
+        natives.MODEXP_MODEL[0] = True
+        natives._lib_cache.pop("Crypto.Math._modexp", None)
+    sys.modules.pop('Crypto.Math._IntegerCustom', None)
+    try:
+        IC = importlib.import_module('Crypto.Math._IntegerCustom').IntegerCustom
+        breach = natives.ContractBreach if env.sym else ()
+        if not env.sym and sh['op'] == 'pow' and isinstance(m, int) and m > 2:
+            # replay / validation: a length mismatch is value-independent in the contract model, but on the real C it only
+            # shows in the result for most -- not all -- values: offer a few more bases with the same exponent and modulus
+            for b2 in (2, 3, 5, 6):
+                try:
+                    got = _v(pow(IC(b2), e, m))
+                    env.check(e < 0 or got == pow(b2, e, m), 'pow(%d, e, m) through the custom back-end is exact' % b2)
+                except (ValueError, ZeroDivisionError):
+                    pass
+        try:
+            if sh['op'] == 'pow':
+                r = _v(pow(IC(b), e, m))
+            else:
+                r = env.P.b2i(IC._mult_modulo_bytes(IC(b), IC(e), m))
+            kind = None
+        except ZeroDivisionError:
+            kind = 'zero'
+        except ValueError:
+            kind = 'value'
+        except breach as x:
+            env.check(False, 'the operands handed to the C code all have the length passed with them [%s]' % x)
+            return
+    finally:
+        undo()
+        if env.sym:
+            natives.MODEXP_MODEL[0] = False
+            natives._lib_cache.pop("Crypto.Math._modexp", None)
+        sys.modules.pop('Crypto.Math._IntegerCustom', None)
+    if sh['op'] == 'pow':
+        env.check(_ifb(env, e < 0, kind == 'value', _ifb(env, m < 0, kind == 'value', _ifb(env, m == 0, kind == 'zero', kind is None))),
+                  'pow: ValueError for a negative exponent or modulus, ZeroDivisionError for modulus 0')
+        if kind is None:
+            from props.c05 import powmod_ref
+            # (the base is reduced first when it is not below the modulus, as the wrapper does: b^e = (b mod m)^e mod m;
+            #  keeping the same normal form lets the solver close the comparison structurally)
+            bb = b % m if (b >= m) else b
+            ref = powmod_ref(env, bb, e, m, we)
+            env.check(r == ref, 'pow(b, e, m) == b^e mod m through the custom back-end (odd moduli in C, even ones in Python)')
+    else:
+        env.check(_ifb(env, m < 0, kind == 'value', _ifb(env, m == 0, kind == 'zero', _ifb(env, m & 1 == 0, kind == 'value', kind is None))),
+                  'modular product: ValueError for negative or even moduli, ZeroDivisionError for modulus 0')
+        if kind is None:
+            t1 = b % m if (b >= m) else b
+            t2 = e % m if (e >= m) else e
+            env.check(r == (t1 * t2) % m, '_mult_modulo_bytes == term1 * term2 mod m (terms reduced first, as the wrapper does)')
+
+
 def run_mr_prime(env, sh):
     """Miller-Rabin on a prime: PROBABLY_PRIME whatever the random tape says"""
     from Crypto.Math import Primality
@@ -391,6 +460,7 @@ HARNESSES = dict(int_algo=Harness('int_algo', run_int_algo, max_paths=100000, bu
                  conv_c=Harness('conv_c', run_conv_c), modexp_c=Harness('modexp_c', run_modexp_c, budget_s=900),
                  modexp_refuse=Harness('modexp_refuse', run_modexp_refuse))
 HARNESSES['bignum'] = _c06().HARNESSES['bignum']
+HARNESSES['custom_glue'] = Harness('custom_glue', run_custom_glue, max_paths=100000, budget_s=900)
 
 
 def shapes(tier):
@@ -446,6 +516,18 @@ def shapes(tier):
     jobs.append(('modexp_c', dict(fn='pow', n=16, elen=16)))
     for n, last in ((1, 0), (1, 1), (1, 2), (8, 2), (9, 0), (16, 4)):
         jobs.append(('modexp_refuse', dict(n=n, last=last)))
+    for m in (7, 251, 257, 65521, (1 << 64) + 13) if th else (7, 257, (1 << 64) + 13):
+        for wb, we in ((3, 4), (9, 9), (4, 17), (17, 3)) if th else ((3, 4), (4, 17), (17, 3)):
+            if m > (1 << 64):
+                continue        # powers over a 9-byte modulus: z3 does not finish reliably (measured): only the product below
+            jobs.append(('custom_glue', dict(op='pow', wb=wb, we=we, wm=0, m=m)))
+        jobs.append(('custom_glue', dict(op='mul', wb=9, we=17, wm=0, m=m)))
+    jobs.append(('custom_glue', dict(op='pow', wb=4, we=4, wm=4)))
+    jobs.append(('custom_glue', dict(op='pow', wb=4, we=4, wm=4, esigned=True, msigned=True)))
+    jobs.append(('custom_glue', dict(op='mul', wb=4, we=4, wm=4, msigned=True)))
+    for m in (8, 256):
+        jobs.append(('custom_glue', dict(op='pow', wb=5, we=9, wm=0, m=m)))
+        jobs.append(('custom_glue', dict(op='mul', wb=5, we=5, wm=0, m=m)))
     # the linear multi-word kernels of bignum.c with all limbs symbolic (shared with C06)
     jobs += [j for j in _c06().shapes(tier) if j[0] == 'bignum']
     return jobs
@@ -457,7 +539,7 @@ BOUNDS = dict(int_algo="operands: every value of the stated reduced width (4..16
               conv="byte lengths 1..17 (quick: 1,7,8,9,16,17), word counts around the exact fit; words -> bytes for 1..2 (3) words",
               modexp="CONCRETE operands of 1..65 bytes (quick 1..33) at word boundaries, exponents 0, 1, 2, 3-byte and full-length, leading zero bytes",
               outside=["exactness of mont_mult_* / addmul128 / square / product for ALL operands (wide symbolic multiplication is not SMT-decidable here); modexp_c "
-                       "only covers the operands it runs", "the GMP back-end (binary library)", "_IntegerCustom glue (the custom back-end is disabled under PYSYM)",
+                       "only covers the operands it runs", "the GMP back-end (binary library)", "GMP glue (_IntegerGMP.py: ctypes memory management)",
                        "composites declared composite (probabilistic over the bases), Lucas test, prime generation", "operands of real cryptographic size for the "
                        "looping Python algorithms (same code, more iterations)"])
 ASSUMPTIONS = ["reduced width: the Python algorithms do not depend on the operand width other than through their loop counts",
